@@ -209,6 +209,32 @@ func (w *world) exec(line string) string {
 	case "adv":
 		w.sleepTo(hx.Atoi64(t[1]))
 		return w.observe()
+	case "stress":
+		// many goroutines put distinct alerts in the same instant: already resolved ones make groups flush,
+		// empty and get destroyed while firing ones are being inserted into the same groups by the
+		// dispatcher's ingestion workers.  Only the quiescent Groups() view is reported.
+		now := hx.Atoi64(t[1])
+		w.sleepTo(now)
+		var wg sync.WaitGroup
+		for _, tok := range hx.Split(t[2], ";") {
+			i := strings.LastIndex(tok, "~")
+			ls := rtx.ParseLabelSet(tok[:i])
+			ends := now + 3600*sec
+			if tok[i+1:] == "1" {
+				ends = now - int64(time.Millisecond)
+			}
+			a := &alert.Alert{Alert: model.Alert{Labels: ls, StartsAt: w.t0.Add(time.Duration(now - 60*sec)), EndsAt: w.t0.Add(time.Duration(ends))}, UpdatedAt: time.Now()}
+			wg.Add(1)
+			go func() {
+				defer wg.Done()
+				w.alerts.Put(context.Background(), a)
+			}()
+		}
+		wg.Wait()
+		synctest.Wait()
+		w.st.drain()
+		g := w.groups()
+		return fmt.Sprintf("G %d %s", len(g), strings.Join(g, " "))
 	}
 	panic("bad op " + line)
 }
@@ -295,6 +321,43 @@ func genCase(id int, r *rand.Rand) []string {
 	return lines
 }
 
+// genStress: group_wait 0 everywhere, a few group-label values, many alerts per burst.
+func genStress(id int, r *rand.Rand) []string {
+	g := rtx.GenOpts{MaxDepth: 2, MaxFan: 3, MaxNodes: 5, Names: []string{"a", "b"}, Timers: false}
+	root := rtx.GenTree(r, g)
+	root.Walk(func(n *rtx.Node) {
+		n.MTI, n.ATI = nil, nil
+		n.GW, n.GI = "-", "-"
+		if n.GB == "all" {
+			n.GB = "l:a"
+		}
+	})
+	root.GW, root.GI = "0", fmt.Sprint(20*sec)
+	lines := []string{fmt.Sprintf("case s%d recv=%s maint=%d", id, strings.Join(rtx.Receivers, "."), hx.Pick(r, maints)), "begin"}
+	root.Walk(func(n *rtx.Node) { lines = append(lines, n.Line()) })
+	lines = append(lines, "start")
+	now := int64(0)
+	uniq := 0
+	for i := range 3 + r.IntN(4) {
+		now = (now/sec+int64(1+r.IntN(30)))*sec + int64(i+1)*int64(time.Millisecond)
+		var toks []string
+		for range 8 + r.IntN(24) {
+			uniq++
+			ls := model.LabelSet{"a": model.LabelValue(hx.Pick(r, []string{"x", "y"})), "c": model.LabelValue(fmt.Sprintf("u%d", uniq))}
+			if r.IntN(2) == 0 {
+				ls["b"] = model.LabelValue(hx.Pick(r, []string{"x", "y"}))
+			}
+			res := "0"
+			if r.IntN(5) < 2 {
+				res = "1"
+			}
+			toks = append(toks, rtx.LabelSetTok(ls)+"~"+res)
+		}
+		lines = append(lines, fmt.Sprintf("stress %d %s", now, strings.Join(toks, ";")))
+	}
+	return lines
+}
+
 func TestEngine(t *testing.T) {
 	tr := hx.Open()
 	defer tr.Close()
@@ -317,7 +380,11 @@ func TestEngine(t *testing.T) {
 		return
 	}
 	r := hx.Rand(6)
-	for id := range hx.Cases(1500, 25000) {
+	n := hx.Cases(4000, 60000)
+	for id := range n {
 		runCase(t, tr, genCase(id, r))
+	}
+	for id := range n / 8 {
+		runCase(t, tr, genStress(id, r))
 	}
 }
